@@ -11,10 +11,22 @@ META["not_decided"] = ["convergence to the nearest physical point (Boyle-Dykstra
 CLASSES = ["contracts.C05_all:Dykstra"]
 
 
+def _native(fn, **kw):
+    from . import C05_native as C
+    return getattr(C, fn)(**kw)
+
+
 def jobs(tier, seed):
-    return e2_jobs("C05", CLASSES, tier, seed)
+    from qverif.core.runner import Job
+    js = e2_jobs("C05", CLASSES, tier, seed)
+    # bounded stand-in (native floats) for what the proof leaves open: where the iteration ends
+    parts = 3 if tier == "quick" else 11
+    for part in range(parts):
+        js.append(Job(f"C05/physical-projection (instances)/{part}", "contracts.C05:_native",
+                      dict(fn="job_physical_projection", tier=tier, seed=seed, part=part, parts=parts), timeout_s=1500.0))
+    return js
 
 CLAIM = {'engine': 'E2-symtwin', 'level': 'other',
  'text': 'PARTIAL. With the two constraint projections as uninterpreted functions, the unmodified calc_proj_physical and calc_proj_physical_with_var are executed for 1..3 sweeps on all paths of the stopping test: the x, y, p, q histories are proved to be exactly Dykstra\'s recurrence in the configured order (either order), the error values the documented quantity, the loop to stop iff error < eps (k >= 1), the returned point the last x, object-level = variable-level step by step, the closure = the routine, the argument unchanged.',
- 'note': 'NOT decided (no contract over one call can state them): convergence of the iteration to the unique nearest physical point (Boyle-Dykstra theorem T2, assumed, together with C04: both projections are nearest-point projections onto closed convex sets), termination, the accuracy implied by eps_proj_physical, order-independence of the LIMIT, agreement with an SDP solve. Unrolled to 3 sweeps (each sweep is the same code path: the recurrence holds from an arbitrary (x,p,q) state by the same VC).',
+ 'note': 'NOT decided by proof (no contract over one call can state them): convergence of the iteration to the unique nearest physical point (Boyle-Dykstra theorem T2, assumed, together with C04: both projections are nearest-point projections onto closed convex sets), termination, the accuracy implied by eps_proj_physical, order-independence of the LIMIT, agreement with an SDP solve. Unrolled to 3 sweeps (each sweep is the same code path: the recurrence holds from an arbitrary (x,p,q) state by the same VC). Bounded stand-in for those clauses (never counted as proved): the real routine is run natively on seeded random near-physical, physical and far inputs (norm 1, 10, 100) for every type with the default and a 1e-8 stopping threshold and must return a physical point (accuracy 10*sqrt(eps), floor 1e-5, relative to the input norm), satisfy the variational inequality against random physical competitors, return physical inputs unchanged, agree between both orders and between object and variable level, and end its history at the returned point; an SDP solve is not available offline. One known finding there: far points of norm 1e2 exhaust the default limit of 1000 iterations.',
  'technique': 'contract-based deductive verification with uninterpreted callee contracts (symbolic execution of the real loop, z3)'}
